@@ -159,18 +159,34 @@ func tapBubble(c *harness.Ctx) {
 	z.Set("/d2", nil)
 	z.Set("/d2/uris", nil)
 	z.Set(zkPath, []byte{})
+	// nested=1: the third node of the pool lives below the first ("n1/d"). ZooKeeper creates no node without its parent
+	// and deletes none that has children, so the stimulus does what a client would have to do: parent first on the
+	// way in, child first on the way out (each its own transaction).
+	nested := c.Cfg["nested"] != ""
+	nodeName := func(n string) string {
+		if nested && n == nodePool[2] {
+			return nodePool[0] + "/d"
+		}
+		return n
+	}
 	apply := func(a announce) {
-		p := zkPath + "/" + a.node
+		p := zkPath + "/" + nodeName(a.node)
 		if a.kind == 1 {
+			if nested && a.node == nodePool[0] {
+				z.Delete(p + "/d")
+			}
 			z.Delete(p)
 			return
+		}
+		if nested && a.node == nodePool[2] && !z.Exists(zkPath+"/"+nodePool[0]) {
+			z.Set(zkPath+"/"+nodePool[0], a.payload())
 		}
 		z.Set(p, a.payload())
 	}
 	var desc []string
 	for i := 0; i < c.Choose(3, "npre"); i++ {
 		a := genAnnounce(c)
-		desc = append(desc, fmt.Sprintf("pre-announce %s kind=%d", a.node, a.kind))
+		desc = append(desc, fmt.Sprintf("pre-announce %s kind=%d", nodeName(a.node), a.kind))
 		apply(a)
 	}
 	conn, _, err := zk.Connect([]string{"127.0.0.1:2181"}, 10*time.Second, zk.WithDialer(z.Dial), zk.WithLogger(nolog{}))
@@ -308,7 +324,7 @@ func tapBubble(c *harness.Ctx) {
 			}
 		case 0:
 			a := genAnnounce(c)
-			desc = append(desc, fmt.Sprintf("announce %s kind=%d %v", a.node, a.kind, a.hosts))
+			desc = append(desc, fmt.Sprintf("announce %s kind=%d %v", nodeName(a.node), a.kind, a.hosts))
 			apply(a)
 		case 1:
 			d := time.Duration(1+c.Choose(12, "advance")) * time.Second
@@ -326,7 +342,7 @@ func tapBubble(c *harness.Ctx) {
 			op := []int32{4, 12}[c.Choose(2, "failop")]
 			p := zkPath
 			if c.Bool("failchild") {
-				p += "/" + nodePool[c.Choose(len(nodePool), "failnode")]
+				p += "/" + nodeName(nodePool[c.Choose(len(nodePool), "failnode")])
 			}
 			desc = append(desc, fmt.Sprintf("fail next op=%d %s", op, p))
 			z.SetFailNext(op, p, fakezk.ErrOperationTimeout)
@@ -334,7 +350,7 @@ func tapBubble(c *harness.Ctx) {
 		case 5:
 			// two changes without waiting in between: TreeCache may coalesce them
 			a, b := genAnnounce(c), genAnnounce(c)
-			desc = append(desc, fmt.Sprintf("burst %s/%d %s/%d", a.node, a.kind, b.node, b.kind))
+			desc = append(desc, fmt.Sprintf("burst %s/%d %s/%d", nodeName(a.node), a.kind, nodeName(b.node), b.kind))
 			apply(a)
 			apply(b)
 			c.Probe("burst-of-two-changes")
@@ -368,9 +384,14 @@ func tapBubble(c *harness.Ctx) {
 	}
 	// convergence (measured): does the view equal the valid announcements now in ZooKeeper?
 	var now []tapEvent
-	for n, data := range z.Children(zkPath) {
-		now = append(now, tapEvent{path: zkPath + "/" + n, data: data})
+	var walk func(dir string)
+	walk = func(dir string) {
+		for n, data := range z.Children(dir) {
+			now = append(now, tapEvent{path: dir + "/" + n, data: data})
+			walk(dir + "/" + n)
+		}
 	}
+	walk(zkPath)
 	sort.Slice(now, func(i, j int) bool { return now[i].path < now[j].path })
 	faultFree, validOnly := true, true
 	for _, d := range desc {
